@@ -1,5 +1,5 @@
 (* C16S — source tie by translation for FC.forward.
-   Statements only (proofs: Proofs/ChainP.v).  Model/Chains.v is REGENERATED from /repo's Go sources
+   Statements only (proofs: Proofs/Chain*P.v).  Model/Chains.v is REGENERATED from /repo's Go sources
    on every run by the translator harness/chainx (go/ast): the straight-line chains of Tensor method
    calls of FC.forward (component/layers/fc.go).
    Each theorem interprets the generated chain with the model's own operations (Model/ChainIR.v) and
@@ -9,7 +9,7 @@
 From Coq Require Import String List ZArith Bool.
 From Qeep Require Import Model.Scalar Model.Nd Model.Data Model.Valid Model.Api Model.Grad Model.Components Model.ChainIR.
 From Qeep Require Model.Chains.
-From Qeep Require Import Proofs.ChainP.
+From Qeep Require Import Proofs.ChainBaseP Proofs.ChainFcP.
 Import ListNotations.
 Local Open Scope string_scope.
 
@@ -21,5 +21,5 @@ Theorem fc_forward_is_its_source_chain :
     (asHres
        (runFun (hooksH rsNone noUser nm noGuard) Chains.fc_forward h
           [("c.Weight", w); ("c.Bias", b); ("x", x)])).
-Proof. exact @ChainP.fc_chain. Qed.
+Proof. exact @ChainFcP.fc_chain. Qed.
 Print Assumptions fc_forward_is_its_source_chain.
